@@ -1147,6 +1147,245 @@ def weighted6_oracle(run, n, impl_bad):
     impl_bad.extend(sorted(found, key=lambda f: len(json.dumps(f["spec"]))))
 
 
+# ---------------------------------------------------------------- every constructor, vectorised along SEVERAL dimensions
+# A constructor that builds all vector elements at once must give element [i, j, ..] the particles / moments made from the
+# parameters of THAT element.  Square scans, parameters constant along a dimension and 1-D scans hide a relabelling of the
+# vector elements (a transpose instead of a movedim): shapes here are non-square and every parameter value is distinct.
+VC_W = [0.5, 0.2, 0.09]                       # element [i, j, k] scales a base value by 1 + 0.5 i + 0.2 j + 0.09 k (pairwise distinct)
+VC_BASE = {"mu_x": 2e-4, "mu_px": -3e-5, "mu_y": -1e-4, "mu_py": 2e-5, "sigma_x": 1.5e-4, "sigma_px": 2e-5, "sigma_y": 2.5e-4, "sigma_py": 1e-5,
+           "sigma_tau": 3e-5, "sigma_p": 1.2e-3, "cor_x": 1e-9, "cor_y": -8e-10, "cor_tau": 1e-8, "energy": 1e8, "total_charge": 1e-10,
+           "beta_x": 2.0, "alpha_x": -0.6, "emittance_x": 2e-9, "beta_y": 5.0, "alpha_y": 0.8, "emittance_y": 3e-8,
+           "radius_x": 1e-3, "radius_y": 2e-3, "radius_tau": 5e-4}
+VC_MOMENTS = ["mu_x", "mu_px", "mu_y", "mu_py", "sigma_x", "sigma_px", "sigma_y", "sigma_py", "sigma_tau", "sigma_p"]
+VC_TWISS = ["beta_x", "alpha_x", "emittance_x", "beta_y", "alpha_y", "emittance_y"]
+VC_CTORS = {
+    # name: (beam type, parameters given, random?, particles)
+    "particle.from_parameters": ("particle", VC_MOMENTS + ["cor_x", "cor_y", "energy", "total_charge"], True, 20000),
+    "particle.from_twiss": ("particle", VC_TWISS + ["sigma_tau", "sigma_p", "energy", "total_charge"], True, 20000),
+    "particle.uniform_3d_ellipsoid": ("particle", ["radius_x", "radius_y", "radius_tau", "sigma_px", "sigma_py", "sigma_p"], True, 20000),
+    "particle.make_linspaced": ("particle", VC_MOMENTS + ["energy", "total_charge"], False, 11),
+    "particle.transformed_to": ("particle", VC_MOMENTS + ["energy", "total_charge"], False, 40),
+    "particle.from_xyz_pxpypz": ("particle", ["sigma_x", "sigma_px", "mu_y", "energy"], False, 12),
+    "parameter.from_parameters": ("parameter", VC_MOMENTS + ["cor_x", "cor_y", "cor_tau", "energy", "total_charge"], False, 0),
+    "parameter.from_twiss": ("parameter", VC_TWISS + ["sigma_tau", "sigma_p", "energy", "total_charge"], False, 0),
+    "parameter.transformed_to": ("parameter", VC_MOMENTS + ["energy", "total_charge"], False, 0),
+}
+VC_SAME_SHAPE = {"particle.uniform_3d_ellipsoid"}          # documented: all given parameters must have the same shape
+
+
+def vc_values(name, sub, full):
+    """nested list of shape `sub` (right-aligned sub-shape of `full`: some dimensions 1 or dropped) for parameter `name`"""
+    off = len(full) - len(sub)
+
+    def val(idx):
+        f = 1.0 + sum(VC_W[off + d] * i for d, i in enumerate(idx) if sub[d] > 1)
+        b = VC_BASE[name]
+        return b + 0.45 * (f - 1.0) if name.startswith("alpha") else b * f
+
+    def build(d, idx):
+        if d == len(sub):
+            return val(idx)
+        return [build(d + 1, idx + (i,)) for i in range(sub[d])]
+    return build(0, ())
+
+
+def gen_vc_spec(rng, ctor, shape, mode):
+    """mode 'full': every parameter has the full vector shape; 'split': parameter k varies along dimension k mod ndim only (shapes like
+    (A,1) against (B,)), so that only the BROADCAST of all of them has the full shape"""
+    kind, names, random_, N = VC_CTORS[ctor]
+    params, nd = {}, len(shape)
+    for k, nm in enumerate(names):
+        if mode == "full" or ctor in VC_SAME_SHAPE or nd == 1:
+            sub = list(shape)
+        else:
+            d = k % nd
+            sub = [shape[j] if j == d else 1 for j in range(nd)][d:]
+        params[nm] = vc_values(nm, sub, list(shape))
+    return {"ctor": ctor, "shape": list(shape), "mode": mode, "params": params, "seed": rng.randrange(2 ** 31), "N": N}
+
+
+def vc_call(spec, index=None):
+    """the constructor on the vectorised parameters (index None) or on the scalar parameters of element `index`"""
+    import cheetah
+    ctor, full = spec["ctor"], tuple(spec["shape"])
+    kw = {}
+    for nm, v in spec["params"].items():
+        t = T(v)
+        kw[nm] = t if index is None else t.broadcast_to(full)[index].clone()
+    torch.manual_seed(spec["seed"] + (0 if index is None else 1 + sum(index)))
+    N = spec["N"]
+    if ctor == "particle.from_parameters":
+        return cheetah.ParticleBeam.from_parameters(num_particles=N, **kw, dtype=DT)
+    if ctor == "particle.from_twiss":
+        return cheetah.ParticleBeam.from_twiss(num_particles=N, **kw, dtype=DT)
+    if ctor == "particle.uniform_3d_ellipsoid":
+        return cheetah.ParticleBeam.uniform_3d_ellipsoid(num_particles=N, **kw, dtype=DT)
+    if ctor == "particle.make_linspaced":
+        return cheetah.ParticleBeam.make_linspaced(num_particles=N, **kw, dtype=DT)
+    if ctor == "parameter.from_parameters":
+        return cheetah.ParameterBeam.from_parameters(**kw, dtype=DT)
+    if ctor == "parameter.from_twiss":
+        return cheetah.ParameterBeam.from_twiss(**kw, dtype=DT)
+    g = torch.Generator().manual_seed(spec["seed"])
+    if ctor == "parameter.transformed_to":
+        base = cheetah.ParameterBeam.from_parameters(sigma_x=T(1e-4), sigma_px=T(3e-5), cor_x=T(1e-9), mu_x=T(1e-5), energy=T(5e7), dtype=DT)
+        return base.transformed_to(**kw)
+    if ctor == "particle.transformed_to":
+        ps = torch.randn(N, 7, generator=g, dtype=DT) * T([1e-4, 2e-5, 3e-4, 1e-5, 2e-5, 1e-3, 0.0])
+        ps[:, 6] = 1.0
+        base = cheetah.ParticleBeam(ps, T(5e7), particle_charges=torch.full((N,), 1e-12, dtype=DT), dtype=DT)
+        return base.transformed_to(**kw)
+    if ctor == "particle.from_xyz_pxpypz":
+        # SI coordinates of a vectorised cloud (element [i, j] scaled by its own sigma_x / sigma_px / offset mu_y), energies per element
+        z = torch.randn(N, 7, generator=g, dtype=DT)
+        sx, spx, my, en = (T(spec["params"][k]).broadcast_to(full) for k in ("sigma_x", "sigma_px", "mu_y", "energy"))
+        ps = torch.ones(*full, N, 7, dtype=DT)
+        ps[..., 0] = z[:, 0] * sx.unsqueeze(-1)
+        ps[..., 1] = z[:, 1] * spx.unsqueeze(-1)
+        ps[..., 2] = z[:, 2] * 1e-4 + my.unsqueeze(-1)
+        ps[..., 3] = z[:, 3] * 1e-5
+        ps[..., 4] = z[:, 4] * 1e-5
+        ps[..., 5] = z[:, 5] * 1e-3
+        src = cheetah.ParticleBeam(ps, en, dtype=DT)
+        xyz = src.to_xyz_pxpypz()
+        if index is None:
+            return cheetah.ParticleBeam.from_xyz_pxpypz(xyz, T(spec["params"]["energy"]), dtype=DT), src
+        return cheetah.ParticleBeam.from_xyz_pxpypz(xyz[index].clone(), en[index].clone(), dtype=DT), src
+    raise ValueError(ctor)
+
+
+def vc_expected(spec, index):
+    """requested value of every reported quantity for element `index`: {getter: (value, kind, aux)}"""
+    full = tuple(spec["shape"])
+    p = {k: float(T(v).broadcast_to(full)[index]) for k, v in spec["params"].items()}
+    ctor, out = spec["ctor"], {}
+    if ctor.endswith("from_twiss"):
+        for pl in "xy":
+            a = p["alpha_" + pl]
+            out["beta_" + pl] = (p["beta_" + pl], "twiss", a)
+            out["alpha_" + pl] = (a, "twiss_alpha", a)
+            out["emittance_" + pl] = (p["emittance_" + pl], "twiss", a)
+        for k in ("sigma_tau", "sigma_p"):
+            out[k] = (p[k], "sigma", None)
+    elif ctor.endswith("uniform_3d_ellipsoid"):
+        for c in ("x", "y", "tau"):
+            out["sigma_" + c] = (p["radius_" + c] / math.sqrt(5.0), "sigma", None)
+        for k in ("sigma_px", "sigma_py", "sigma_p"):
+            out[k] = (p[k], "sigma", None)
+    elif ctor.endswith("make_linspaced"):
+        n = spec["N"]
+        for k in VC_MOMENTS:
+            out[k] = (p[k] * (math.sqrt(n * (n + 1) / 3.0) / (n - 1) if k.startswith("sigma") else 1.0), "sigma" if k.startswith("sigma") else "mean", None)
+    elif ctor.endswith("from_xyz_pxpypz"):
+        pass
+    else:
+        for k in VC_MOMENTS:
+            if k in p:
+                out[k] = (p[k], "sigma" if k.startswith("sigma") else "mean", p.get("sigma_" + k[3:]))
+        if "cor_x" in p:
+            out["sigma_xpx"] = (p["cor_x"], "cov", p["sigma_x"] * p["sigma_px"])
+            out["sigma_ypy"] = (p["cor_y"], "cov", p["sigma_y"] * p["sigma_py"])
+    for k in ("energy", "total_charge"):
+        if k in p:
+            out[k] = (p[k], "exact", None)
+    return out
+
+
+def vc_tol(kind, want, aux, N, random_):
+    if kind == "exact" or not random_:
+        return 1e-9 * abs(want) + (1e-9 * abs(aux) if kind in ("mean", "cov") and aux else 0.0) + 1e-300
+    sd = math.sqrt(2.0 / N)
+    if kind == "mean":
+        return 6 * aux / math.sqrt(N)
+    if kind == "sigma":
+        return 5 * sd * abs(want)
+    if kind == "cov":
+        return 5 * sd * (abs(aux) + abs(want))
+    if kind == "twiss":
+        return 5 * sd * (1 + abs(aux)) * 2 * abs(want)
+    if kind == "twiss_alpha":
+        return 5 * sd * (1 + abs(aux)) * 2 * (1 + abs(aux))
+    raise ValueError(kind)
+
+
+def check_vector_ctor(spec):
+    """Returns the list of failures for one vectorised constructor call."""
+    import itertools
+    kind, names, random_, N = VC_CTORS[spec["ctor"]]
+    full = tuple(spec["shape"])
+    try:
+        b = vc_call(spec)
+    except Exception as ex:
+        return [{"what": "the vectorised call raised", "error": f"{type(ex).__name__}: {ex}"[:300]}]
+    src = None
+    if isinstance(b, tuple):
+        b, src = b
+    bad = []
+    got_shape = tuple(b.particles.shape[:-2]) if kind == "particle" else tuple(torch.broadcast_shapes(b._mu.shape[:-1], b._cov.shape[:-2]))
+    if got_shape != full:
+        return [{"what": f"vector shape of the beam is {got_shape}, the parameters broadcast to {full}"}]
+    cache = {}
+
+    def reported(g):
+        if g not in cache:
+            cache[g] = torch.as_tensor(getattr(b, g)).broadcast_to(full)
+        return cache[g]
+    for index in itertools.product(*[range(n) for n in full]):
+        for g, (want, knd, aux) in vc_expected(spec, index).items():
+            got = float(reported(g)[index])
+            tol = vc_tol(knd, want, aux, N, random_)
+            if not abs(got - want) <= tol:
+                bad.append({"element": list(index), "getter": g, "reported": got, "requested_for_this_element": want, "tolerance": tol})
+        if bad:
+            break
+        # ... and the same constructor on the scalar parameters of this element
+        try:
+            e = vc_call(spec, index)
+        except Exception as ex:
+            bad.append({"element": list(index), "what": "the scalar call for this element raised", "error": f"{type(ex).__name__}: {ex}"[:200]})
+            break
+        if isinstance(e, tuple):
+            e = e[0]
+        if not random_:
+            pairs = [("particles", b.particles[index], e.particles)] if kind == "particle" else [("_mu", b._mu.broadcast_to(full + (7,))[index], e._mu), ("_cov", b._cov.broadcast_to(full + (7, 7))[index], e._cov)]
+            if src is not None:
+                pairs.append(("particles vs the beam the SI coordinates came from", b.particles[index], src.particles[index]))
+            pairs.append(("energy", b.energy.broadcast_to(full)[index], e.energy))
+            for nm, x, y in pairs:
+                rt = 1e-6 if nm.startswith("particles vs") else 1e-11
+                if x.shape != y.shape or not float((x - y).abs().max()) <= rt * max(float(y.abs().max()), 1e-300):
+                    bad.append({"element": list(index), "buffer": nm, "max_abs_difference_from_the_scalar_call":
+                                None if x.shape != y.shape else float((x - y).abs().max()), "scale": float(y.abs().max())})
+        else:
+            for g, (want, knd, aux) in vc_expected(spec, index).items():
+                got = float(reported(g)[index])
+                ref = float(getattr(e, g))
+                tol = 1.5 * vc_tol(knd, want, aux, N, random_)
+                if not abs(got - ref) <= tol:
+                    bad.append({"element": list(index), "getter": g, "reported": got, "scalar_call_reports": ref, "tolerance": tol})
+        if bad:
+            break
+    return bad
+
+
+def vector_ctor_oracle(run, n_rounds, impl_bad):
+    for r in range(n_rounds):
+        dims = run.rng.sample([2, 3, 4], 3)
+        A, B, C = dims
+        for ctor in VC_CTORS:
+            for shape in ((A,), (A, B), (A, 1), (1, B), (A, B, C) if r % 2 == 0 else (C, A, B)):
+                for mode in ("full", "split"):
+                    if mode == "split" and (len(shape) == 1 or ctor in VC_SAME_SHAPE or 1 in shape):
+                        continue
+                    spec = gen_vc_spec(run.rng, ctor, shape, mode)
+                    run.add_case(["vector_ctor", spec], len([n for n in shape if n > 1]) >= 2)
+                    run.count("vector_ctor_" + ctor)
+                    run.count("vector_ctor_ndim_%d_%s" % (len(shape), mode))
+                    bad = check_vector_ctor(spec)
+                    if bad:
+                        impl_bad.append({"kind": "vector_constructor", "spec": spec, "diffs": bad[:6]})
+
+
 def degenerate_note(run):
     """F19: a perfectly correlated beam is clamped; the identity does not hold there (scoped by hypothesis, not a finding line)"""
     import cheetah
@@ -1177,7 +1416,13 @@ def main(tier, replay=None):
                        "own textbook block and vs tracking the entry alone; survival-WEIGHTED statistics (0/1 masks, fractional, vectorised masks, float32/64): "
                        "all six mu_*, all six sigma_*, both covariances vs the exact rational reference (and vs the ordinary statistics of the beam with the lost "
                        "particles deleted), translation and scaling of each coordinate, permutation, Twiss identity; from_twiss particle beams with random "
-                       "survival. Distinct by content.")
+                       "survival.  EVERY CONSTRUCTOR VECTORISED ALONG SEVERAL DIMENSIONS (ParticleBeam.from_parameters / from_twiss / uniform_3d_ellipsoid / "
+                       "make_linspaced / transformed_to / from_xyz_pxpypz, ParameterBeam.from_parameters / from_twiss / transformed_to) with vector shapes (A,), "
+                       "(A,B), (A,1), (1,B), (A,B,C), A, B, C pairwise different, every parameter value distinct per element, parameters of full shape or "
+                       "each varying along ONE dimension only ((A,1) against (B,)): every element's reported moments / Twiss parameters / energy / charge vs the "
+                       "values requested for THAT element (5-6 sigma of the sampling error for the random constructors, 1e-9 for the deterministic ones) and vs "
+                       "the same constructor called with that element's scalar parameters (buffers at 1e-11 for deterministic constructors, statistically "
+                       "otherwise). Distinct by content.")
     if replay:
         return do_replay(run, replay)
     proof_ok = run.proof_stage()
@@ -1227,6 +1472,7 @@ def main(tier, replay=None):
     stage("offaxis_oracle", offaxis_oracle, run, 400 if thorough else 40, impl_bad)
     stage("transport_vec_oracle", transport_vec_oracle, run, 1500 if thorough else 150, impl_bad)
     stage("weighted6_oracle", weighted6_oracle, run, 1200 if thorough else 120, impl_bad)
+    stage("vector_ctor_oracle", vector_ctor_oracle, run, 6 if thorough else 1, impl_bad)
     stage("degenerate_note", degenerate_note, run)
     failing, errs = common.run_real_goals(PID, "twiss", PRE, goals, shard=10)
     run.cov["traces_validated_against_impl"] += len(goals)
@@ -1243,6 +1489,8 @@ def main(tier, replay=None):
                               "survival-weighted statistics of all coordinates vs exact rational arithmetic (tolerance: 4 x the rounding bound of the two-pass "
                               "formulas); the real-number statements are proved per coordinate (C17_stats_*_every_coordinate, C17_stats_lost_particles_absent); "
                               "mu/sigma of px, py, tau, p are also compared with the Coq model by interval"]
+    run.cov["tested_only"].append("vectorised constructors: element-by-element agreement with the requested parameters and with the scalar call (the model is "
+                                  "per element; that the implementation labels the vector elements correctly is tested, not modelled)")
     if NONFINITE_OBS and not impl_bad:
         impl_bad.append({"kind": "nonfinite_observation", "case": NONFINITE_OBS[0], "n": len(NONFINITE_OBS),
                          "diffs": "a Twiss / moment getter returned NaN or inf for a non-degenerate beam"})
@@ -1286,6 +1534,8 @@ def do_replay(run, path):
         bad = check_transport_vec(r["spec"])
     elif kind == "weighted_statistics":
         bad = check_weighted6(r["spec"])
+    elif kind == "vector_constructor":
+        bad = check_vector_ctor(r["spec"])
     else:
         print("replay: re-run the check to reproduce kind", kind)
         return 0
